@@ -3,7 +3,7 @@ import PPProofs.Props.Gen.TrimArity
 /-!
 # C13 — parse actions are called with the documented protocol  (part 1: `_trim_arity`)
 
-Model: `PPModel/Mod/TrimArity.lean` (transcription of core.py:257-318, 864-904, 321-346, 1211-1225).
+Model: `PPModel/Mod/TrimArity.lean` (transcription of core.py:257-324, 870-910, 327-352, 1219-1233).
 Vocabulary (defined in `PPProofs/Lemmas/TrimArity.lean`):
 * `PyLevel cfg f` — every exception leaving the body of `f` carries the body's frame first, and that frame is
   not the wrapper's call line (all Python-level callables);
@@ -103,7 +103,9 @@ theorem wrapper_invariant (cfg : Cfg) (f : Callable σ β)
   | true =>
     simp only [wrapper, hf, if_true]
     rcases hc : callFn f s (n - st.limit) with ⟨r, s', ev⟩
-    cases r <;> simp [hl]
+    cases r with
+    | ret v => simp [hl]
+    | raise e fr => cases e <;> simp [hl]
   | false =>
     have hr : wrapper cfg f st s n = probeLoop cfg f n st.limit s [] := by simp [wrapper, hf]
     rw [hr]
@@ -127,9 +129,28 @@ theorem sticky_arity (cfg : Cfg) (f : Callable σ β) (n j : Nat) (s : σ) :
       (wrapper cfg f ⟨true, j⟩ s n).cs = (f.body s (n - j)).2) := by
   simp only [wrapper, if_true]
   rcases hc : callFn f s (n - j) with ⟨r, s', ev⟩
-  refine ⟨by cases r <;> rfl, by cases r <;> rfl, fun hacc => ?_⟩
-  simp only [callFn, hacc, if_true] at hc
-  cases r <;> simp_all
+  have hsplit : ∀ r : BodyRes β, (∃ v, r = .ret v) ∨ (∃ fr, r = .raise .indexError fr) ∨
+      (∃ e fr, r = .raise e fr ∧ e ≠ .indexError) := by
+    intro r; cases r with
+    | ret v => exact Or.inl ⟨v, rfl⟩
+    | raise e fr =>
+      by_cases h : e = .indexError
+      · subst h; exact Or.inr (Or.inl ⟨fr, rfl⟩)
+      · exact Or.inr (Or.inr ⟨e, fr, rfl, h⟩)
+  refine ⟨?_, ?_, fun hacc => ?_⟩
+  · rcases hsplit r with ⟨v, h⟩ | ⟨fr, h⟩ | ⟨e, fr, h, hne⟩ <;> subst h
+    · rfl
+    · rfl
+    · cases e <;> first | rfl | exact absurd rfl hne
+  · rcases hsplit r with ⟨v, h⟩ | ⟨fr, h⟩ | ⟨e, fr, h, hne⟩ <;> subst h
+    · rfl
+    · rfl
+    · cases e <;> first | rfl | exact absurd rfl hne
+  · simp only [callFn, hacc, if_true] at hc
+    rcases hsplit r with ⟨v, h⟩ | ⟨fr, h⟩ | ⟨e, fr, h, hne⟩ <;> subst h
+    · simp_all
+    · simp_all
+    · cases e <;> first | simp_all | exact absurd rfl hne
 
 /-- a fresh wrapper whose first call returns ends in exactly such a state, with `j` the trim found -/
 theorem first_return_sets_found (cfg : Cfg) (f : Callable σ β)
@@ -147,15 +168,13 @@ theorem first_return_sets_found (cfg : Cfg) (f : Callable σ β)
     propagates unchanged — `TypeError` stays `TypeError`, `IndexError` stays `IndexError`. -/
 def expectedTop (e : Exc) : TopOut := .raises e
 
-/-- **body_exceptions_propagate_partial.**  *While `found_arity` is still `False`* (first call, or all earlier
+/-- **body_exceptions_propagate_probing.**  While `found_arity` is still `False` (first call, or all earlier
     calls raised): an exception raised in the body of a Python-level callable — at any depth, with any
     traceback below the body's frame — is never taken for an arity probe (the body is not run again), and
     `parse_string` raises that very exception class: `TypeError` → `TypeError`, `IndexError` → wrapped in
     `_ParseActionIndexError`, unwrapped by `parse_string` → `IndexError`, `ParseFatalException`, others →
-    unchanged; `ParseException` → the element fails.
-    PARTIAL: the property text claims this for every call.  It is **false** once `found_arity` is `True` for
-    `IndexError` (see `indexError_after_found_becomes_parseException`). -/
-theorem body_exceptions_propagate_partial (cfg : Cfg) (f : Callable σ RetVal)
+    unchanged; `ParseException` → the element fails. -/
+theorem body_exceptions_propagate_probing (cfg : Cfg) (f : Callable σ RetVal)
     (hsyn : cfg.synth = cfg.callSite) (hpy : PyLevel cfg f) (n j : Nat) (st : WState) (s : σ)
     (e : Exc) (fr : List Frame) (cur : Toks)
     (hnf : st.found = false) (hlj : st.limit ≤ j) (hj : j ≤ cfg.maxLimit)
@@ -175,29 +194,59 @@ theorem body_exceptions_propagate_partial (cfg : Cfg) (f : Callable σ RetVal)
   · rw [hr]; unfold finish; rw [hraise]; cases e <;> rfl
   · intro he; subst he; rw [hr]; unfold finish; rw [hraise]; rfl
 
-/-- after the arity was found, every exception other than `IndexError` still propagates unchanged -/
+/-- after the arity was found (fast path, core.py:279-287): every exception raised in the body, `IndexError`
+    included (wrapped in `_ParseActionIndexError` there too, unwrapped by `parse_string`), propagates unchanged;
+    no `PyLevel` hypothesis is needed — nothing is probed any more. -/
 theorem body_exceptions_propagate_found (cfg : Cfg) (f : Callable σ RetVal) (n j : Nat) (s : σ)
-    (e : Exc) (fr : List Frame) (cur : Toks) (hne : e ≠ .indexError)
+    (e : Exc) (fr : List Frame) (cur : Toks)
     (hacc : f.accepts (n - j) = true) (hraise : (f.body s (n - j)).1 = .raise e fr) :
-    parseStringOut (actionStep cur (wrapper cfg f ⟨true, j⟩ s n).out) = expectedTop e := by
+    parseStringOut (actionStep cur (wrapper cfg f ⟨true, j⟩ s n).out) = expectedTop e ∧
+    (e = .parseExc → actionStep cur (wrapper cfg f ⟨true, j⟩ s n).out = .parseFail) := by
   simp only [wrapper, if_true, callFn, hacc]
   rw [show (f.body s (n - j)) = ((f.body s (n - j)).1, (f.body s (n - j)).2) from rfl, hraise]
-  cases e <;> first | rfl | exact absurd rfl hne
+  cases e <;> exact ⟨rfl, by intro h; first | rfl | cases h⟩
 
-/-- **FINDING (the property is false here).**  Once `found_arity` is `True` the wrapper takes the fast path
-    `return func(*args[limit:])` (core.py:279-280), which is *outside* the `try`; an `IndexError` raised in the
-    body then reaches the action loop as a bare `IndexError` and is converted into a `ParseException`
-    (core.py:893-895): `parse_string` raises `ParseException`, not `IndexError` — for every callable. -/
-theorem indexError_after_found_becomes_parseException (cfg : Cfg) (f : Callable σ RetVal) (n j : Nat)
+/-- the former finding `indexerror_after_arity_found` (fixed in 5ea5199), now a regression theorem: an
+    `IndexError` raised in the body after an earlier call returned leaves `parse_string` as `IndexError`,
+    and the element does *not* merely fail. -/
+theorem indexError_after_found_propagates (cfg : Cfg) (f : Callable σ RetVal) (n j : Nat)
     (s : σ) (fr : List Frame) (cur : Toks)
     (hacc : f.accepts (n - j) = true) (hraise : (f.body s (n - j)).1 = .raise .indexError fr) :
-    parseStringOut (actionStep cur (wrapper cfg f ⟨true, j⟩ s n).out) = .raises .parseExc ∧
-    parseStringOut (actionStep cur (wrapper cfg f ⟨true, j⟩ s n).out) ≠ expectedTop .indexError := by
-  have h : parseStringOut (actionStep cur (wrapper cfg f ⟨true, j⟩ s n).out) = .raises .parseExc := by
+    parseStringOut (actionStep cur (wrapper cfg f ⟨true, j⟩ s n).out) = .raises .indexError ∧
+    actionStep cur (wrapper cfg f ⟨true, j⟩ s n).out ≠ .parseFail := by
+  have h : (wrapper cfg f ⟨true, j⟩ s n).out = .wrappedIndex := by
     simp only [wrapper, if_true, callFn, hacc]
     rw [show (f.body s (n - j)) = ((f.body s (n - j)).1, (f.body s (n - j)).2) from rfl, hraise]
-    rfl
-  exact ⟨h, by rw [h]; decide⟩
+  rw [h]
+  exact ⟨rfl, by simp [actionStep]⟩
+
+/-- **body_exceptions_propagate** (full strength: every call, every wrapper state the code can reach).
+    `j` is the trim in force: the sticky `limit` once `found_arity` is `True`, otherwise the first index
+    `≥ limit` whose argument count binds.  Whatever exception the body raises on its single run — at any depth —
+    `parse_string` raises that exception class unchanged (`TypeError` is not taken for an arity probe,
+    `IndexError` is not turned into a `ParseException`), the body is run exactly once, and a `ParseException`
+    makes just that element fail. -/
+theorem body_exceptions_propagate (cfg : Cfg) (f : Callable σ RetVal)
+    (hsyn : cfg.synth = cfg.callSite) (hpy : PyLevel cfg f) (n j : Nat) (st : WState) (s : σ)
+    (e : Exc) (fr : List Frame) (cur : Toks)
+    (hfound : st.found = true → j = st.limit) (hlj : st.limit ≤ j) (hj : j ≤ cfg.maxLimit)
+    (hrej : ∀ i, st.limit ≤ i → i < j → f.accepts (n - i) = false)
+    (hacc : f.accepts (n - j) = true) (hraise : (f.body s (n - j)).1 = .raise e fr) :
+    parseStringOut (actionStep cur (wrapper cfg f st s n).out) = expectedTop e ∧
+    runsOf (wrapper cfg f st s n).evs = [n - j] ∧
+    (e = .parseExc → actionStep cur (wrapper cfg f st s n).out = .parseFail) := by
+  cases hf : st.found with
+  | false =>
+    have h := body_exceptions_propagate_probing cfg f hsyn hpy n j st s e fr cur hf hlj hj hrej hacc hraise
+    exact ⟨h.1, h.2.1, h.2.2.2⟩
+  | true =>
+    have hjl := hfound hf
+    have hst : st = ⟨true, j⟩ := by cases st; simp_all
+    subst hst
+    have h := body_exceptions_propagate_found cfg f n j s e fr cur hacc hraise
+    refine ⟨h.1, ?_, h.2⟩
+    have := (sticky_arity cfg f n j s).2.2 hacc
+    rw [this.1]; rfl
 
 /-! ## return values -/
 
@@ -253,9 +302,9 @@ example : wrapper liveCfg ex1 .fresh 0 3 = finish 3 2 (ex1.body 0 1) (probes 3 0
     (by intro i hi; have : i = 0 ∨ i = 1 := by omega
         rcases this with h | h <;> subst h <;> rfl) rfl
 
-/-- the finding on this instance: 2nd invocation (state after the first) raises IndexError in the body and
-    `parse_string` shows a ParseException; on a fresh wrapper the same body behaviour shows IndexError. -/
-example : parseStringOut (actionStep .matched (wrapper liveCfg ex1 ⟨true, 2⟩ 1 3).out) = .raises .parseExc ∧
+/-- the former finding on this instance: 2nd invocation (state after the first) raises IndexError in the body
+    and `parse_string` shows IndexError, exactly as on a fresh wrapper. -/
+example : parseStringOut (actionStep .matched (wrapper liveCfg ex1 ⟨true, 2⟩ 1 3).out) = .raises .indexError ∧
           parseStringOut (actionStep .matched (wrapper liveCfg ex1 .fresh 1 3).out) = .raises .indexError := by
   simp [wrapper, WState.fresh, probeLoop, callFn, ex1, isArityError, liveCfg, Gen.synthLine, Gen.callLine,
     Gen.sameFile, Gen.maxLimit, actionStep, parseStringOut]
